@@ -189,6 +189,22 @@ def check(ctx):
             continue
         ok = bool(find_all("self._read_bio.write_eof()", h)) and bool(find_all("self._write_bio.write_eof()", h))
         ctx.ob("R17-b", pump, f"both BIOs are sealed on a fatal {nm} (later calls fail instead of hanging)", ok, node=h, detail="" if ok else f"the {nm} handler does not write_eof() both BIOs", by=("write_eof x2",))
+    # the pump's verdict (EndOfStream / BrokenResourceError / SSL errors) is final: no other method of the stream re-maps it
+    for q in ("wrap", "receive", "send", "unwrap", "aclose"):
+        f = ctx.fn(f"TLSStream.{q}", TLS)
+        for h in [x for x in own_walk(f.node) if isinstance(x, ast.ExceptHandler)]:
+            names = handler_names(h)
+            relevant = any(ctx.hier.is_sub(c_, nm) for nm in names for c_ in ("EndOfStream", "BrokenResourceError", "SSLError", "ClosedResourceError"))
+            if not relevant:
+                continue
+            last = h.body[-1] if h.body else None
+            ok = isinstance(last, ast.Raise) and last.exc is None and not any(isinstance(x, ast.Raise) and x.exc is not None for s_ in h.body for x in ast.walk(s_)) \
+                and not any(isinstance(x, (ast.Return, ast.Continue, ast.Break)) for s_ in h.body for x in ast.walk(s_))
+            ctx.ob("R17-b", f, f"TLSStream.{q} lets the pump's verdict through unchanged", ok, node=h,
+                   detail="" if ok else f"`except {', '.join(names)}` in TLSStream.{q} swallows or re-maps an error that the pump has already classified "
+                                        f"(e.g. a truncation reported as the wrong class)", by=("handler re-raises unchanged",))
+    n_h = sum(1 for q in ("wrap", "receive", "send", "unwrap", "aclose") for x in own_walk(ctx.fn(f"TLSStream.{q}", TLS).node) if isinstance(x, ast.ExceptHandler))
+    ctx.ob("R17-b", pump, "error classification happens in the pump only", True, detail=f"{n_h} handler(s) outside the pump inspected", by=(f"{n_h} handlers",))
     rcv = ctx.fn("TLSStream.receive", TLS)
     mb = rcv.node.args.args[1].arg
     rd = ctx.sites(rcv, f"$D = await self._call_sslobject_method(self._ssl_object.read, $N)")
